@@ -1,8 +1,13 @@
 (* GENERATED on every run by harness/pygen_c17.py from gnpy/core/elements.py, parameters.py and network.py of /repo -
    do not edit. *)
-From Coq Require Import QArith.
+From Coq Require Import QArith Qminmax.
 From Verif Require Import Prelude Model.Chain Model.Redesign.
 Open Scope Q_scope.
+
+(* names the translator of harness/pygen_c09.py uses, in terms of Model/Redesign.v *)
+Definition c_voa_step (c : scfg) : Q := s_vstep c.
+Definition c_voa_margin (c : scfg) : Q := s_margin c.
+Definition round2float (x step : Q) : Q := r2f x step.
 
 (* elements.Edfa.to_json: the operational block (effective_gain, delta_p, tilt_target, out_voa, in_voa as options; the local tilt_target is self.tilt_target with -0.0 written 0) *)
 Definition g_edfa_gain (gain dp tilt voa in_voa : option Q) : option Q := (match gain with Some v => Some (round_dec 6 v) | None => None end).
@@ -34,6 +39,24 @@ Definition g_nli_defaults : kw := [("method", (JS "gn_model_analytic")); ("dispe
 Definition g_nli_keys : list string := ["method"; "dispersion_tolerance"; "phase_shift_tolerance"; "computed_channels"; "computed_number_of_channels"]%string.
 
 (* parameters.SimParams.set_params matches its template *)
+
+(* network.compute_gain_power_and_tilt_target (t = target_power(..), u = operational.delta_p; the gain-mode branch is taken iff a gain is imposed and power_mode is off: template) *)
+Definition g_dp_rule (t voa : Q) : Q := (t + voa).
+Definition g_dp_user (u : Q) : Q := u.
+Definition g_gain_pm (node_loss deviation_db dp prev_dp prev_voa in_voa : Q) : Q := (((((node_loss + deviation_db) + dp) - prev_dp) + prev_voa) + in_voa).
+Definition g_dp_gm (prev_dp node_loss deviation_db prev_voa gain_target in_voa : Q) : Q := ((((prev_dp - (node_loss + deviation_db)) - prev_voa) + gain_target) - in_voa).
+Definition g_power_target (pref_total dp : Q) : Q := (pref_total + dp).
+
+(* network.set_one_amplifier: power reduction of an amplifier with imposed type_variety; (dp, voa) returned (template) *)
+Definition g_red_pm (p_max pref_total dp : Q) : Q := (Qmin 0 (p_max - (pref_total + dp))).
+Definition g_red_gm (p_max pref_total prev_dp node_loss prev_voa gain_target : Q) : Q :=
+  let pout := ((((pref_total + prev_dp) - node_loss) - prev_voa) + gain_target) in (Qmin 0 (p_max - pout)).
+
+(* network.set_amplifier_voa: the automatic output VOA *)
+Definition g_auto_voa (c : scfg) (pmax gmax pt gain : Q) : Q :=
+  let voa := (Qmin (pmax - pt) (gmax - gain)) in
+  let voa := (Qmax (Qmin ((round2float voa (c_voa_step c)) - (c_voa_margin c)) voa) 0) in
+  voa.
 
 (* network.estimate_raman_gain: SimParams saved (to_json of both entries) before set_params(sim_params), restored before the rounded estimate is returned (template); the settings in force during the solver call *)
 Definition g_during_nli : option kw := None.
